@@ -32,7 +32,7 @@ type DBSpec struct {
 func (d DBSpec) Name() string {
 	var sb strings.Builder
 	fmt.Fprintf(&sb, "%s/%s", d.Family, d.Layout)
-	if d.Family != "star" {
+	if d.Family != "star" && d.Family != "ministar" {
 		for _, t := range []string{"t", "u", "v"} {
 			fmt.Fprintf(&sb, " %s=%v", t, d.T[t])
 		}
@@ -158,10 +158,27 @@ func Databases(level int) []DBSpec {
 	star := starRows()
 	vstar := star[:16]
 	for _, l := range []string{"nokey", "idx", "ab"} {
-		if level == 0 && l == "ab" {
+		if level == 0 && l == "ab" && false {
 			continue
 		}
 		out = append(out, DBSpec{Family: "star", Layout: l, T: map[string][]R{"t": star, "u": star, "v": vstar}})
+	}
+	if level == -2 { // mini-star: every row over {NULL,1,2}^2 once + two duplicates, indexed layouts
+		var mini []R
+		for _, r := range star[:16] {
+			if (r[0] == nil || *r[0] != 0) && (r[1] == nil || *r[1] != 0) {
+				mini = append(mini, r)
+			}
+		}
+		mini = append(mini, R{nil, nil}, R{iv(1), iv(1)})
+		out = nil
+		for _, l := range []string{"idx", "ab"} {
+			out = append(out, DBSpec{Family: "ministar", Layout: l, T: map[string][]R{"t": mini, "u": mini, "v": mini[:9]}})
+		}
+		return out
+	}
+	if level < 0 { // star databases only
+		return out
 	}
 	ones := oneRows()
 	vs := [][]R{{{iv(1), iv(1)}}}
